@@ -127,6 +127,71 @@ func (e *Engine) genUTXO(kind string, u *User, pick int) *MTx {
 			return nil
 		}
 		return e.record(payer, tx, "fund")
+	case "spendall":
+		// hidden -> account, the whole amount: the transaction creates NO
+		// confidential output
+		cands := e.unspent()
+		var pool []*Owned
+		for _, o := range cands {
+			if !e.hasOpenSpend(o) {
+				pool = append(pool, o)
+			}
+		}
+		if len(pool) == 0 {
+			pool = cands
+		}
+		if len(pool) == 0 {
+			return nil
+		}
+		in := pool[pick%len(pool)]
+		a := e.recipient(t, nil)
+		tx, err := e.SpendTx(us.Wallets[in.Wallet], []*Owned{in}, 1+t.Pick(3, 3, 2), nil, nil, &a, pick)
+		if err != nil {
+			e.C.HarnessTrouble("full withdrawal: %v", err)
+			e.Stop()
+			return nil
+		}
+		return e.noteSpend(e.record(nil, tx, kind), []*Owned{in}, tx)
+	case "respent":
+		// a fresh spend of an output whose key image is already on chain
+		// (alone, or next to an unspent input of the same wallet)
+		var spent []*Owned
+		for _, o := range us.Owned {
+			if o.KI != nil {
+				if _, ok := us.KICommitted[*o.KI]; ok {
+					spent = append(spent, o)
+				}
+			}
+		}
+		if len(spent) == 0 {
+			return nil
+		}
+		in := spent[pick%len(spent)]
+		ins := []*Owned{in}
+		if t.Bool(1, 3) {
+			for _, o := range e.unspent() {
+				if o.Wallet == in.Wallet {
+					ins = []*Owned{o, in}
+					break
+				}
+			}
+		}
+		sum := new(big.Int)
+		for _, o := range ins {
+			sum.Add(sum, o.Amount)
+		}
+		pay := new(big.Int).Sub(sum, us.FeeUU)
+		pay.Sub(pay, lkCoins(int64(1+pick%7)))
+		if pay.Cmp(lkCoins(1)) < 0 {
+			return nil
+		}
+		tx, err := e.SpendTx(us.Wallets[in.Wallet], ins, 1+t.Pick(3, 3, 2), pay, us.Wallets[t.Int(len(us.Wallets))], nil, pick)
+		if err != nil {
+			e.C.HarnessTrouble("re-spend tx: %v", err)
+			e.Stop()
+			return nil
+		}
+		return e.noteSpend(e.record(nil, tx, kind), ins, tx)
 	case "spend", "spendacc", "kiconflict", "kidup":
 		cands := e.unspent()
 		var pool []*Owned
@@ -194,19 +259,39 @@ func (e *Engine) genUTXO(kind string, u *User, pick int) *MTx {
 			e.Stop()
 			return nil
 		}
-		m := e.record(nil, tx, kind)
-		m.Ins = ins
-		kis := keyImages(tx)
-		for i, o := range ins {
-			if i < len(kis) {
-				k := kis[i]
-				o.KI = &k
-			}
-			o.Spends = append(o.Spends, m)
-		}
-		return m
+		return e.noteSpend(e.record(nil, tx, kind), ins, tx)
 	}
 	return nil
+}
+
+// noteSpend links a generated spend with the outputs it consumes.
+func (e *Engine) noteSpend(m *MTx, ins []*Owned, tx types.Tx) *MTx {
+	m.Ins = ins
+	kis := keyImages(tx)
+	for i, o := range ins {
+		if i < len(kis) {
+			k := kis[i]
+			o.KI = &k
+		}
+		o.Spends = append(o.Spends, m)
+	}
+	return m
+}
+
+// SpentOutputs returns the wallet outputs whose key image is on chain.
+func (e *Engine) SpentOutputs() []*Owned {
+	var out []*Owned
+	if e.U == nil {
+		return nil
+	}
+	for _, o := range e.U.Owned {
+		if o.KI != nil {
+			if _, ok := e.U.KICommitted[*o.KI]; ok {
+				out = append(out, o)
+			}
+		}
+	}
+	return out
 }
 
 // rivalSpend builds a spend of an output that the node's mempool already holds
